@@ -6,6 +6,7 @@ import (
 	"fmt"
 	"go/token"
 	"go/types"
+	"strings"
 
 	"golang.org/x/tools/go/ssa"
 )
@@ -341,26 +342,138 @@ func ruleMono(w *World, r *Report) {
 
 // boolOpNames extracts, from isAndOpNode / isOrOpNode, the set of operator
 // names they accept (string constants compared with the node's value).
+// nameOfNode: v is the operator name of node n — n.value.(string) — possibly obtained through a forwarding helper
+// whose result #k is that expression on its own parameter (or the empty string).
+func nameOfNode(w *World, v ssa.Value, n ssa.Value, depth int) bool {
+	if ex, ok := v.(*ssa.Extract); ok && ex.Index == 0 {
+		if ta, ok := ex.Tuple.(*ssa.TypeAssert); ok {
+			v = ta
+		}
+	}
+	if ta, ok := v.(*ssa.TypeAssert); ok {
+		if base, okv := loadOfField(ta.X, "node", "value"); okv && base == n {
+			return true
+		}
+		return false
+	}
+	ex, ok := v.(*ssa.Extract)
+	var call *ssa.Call
+	idx := 0
+	if ok {
+		call, _ = ex.Tuple.(*ssa.Call)
+		idx = ex.Index
+	} else {
+		call, _ = v.(*ssa.Call)
+	}
+	if call == nil || depth > 2 {
+		return false
+	}
+	h := call.Call.StaticCallee()
+	if h == nil || !w.funcSet[h] {
+		return false
+	}
+	pi := -1
+	for i, a := range call.Call.Args {
+		if a == n {
+			pi = i
+		}
+	}
+	if pi < 0 || pi >= len(h.Params) {
+		return false
+	}
+	some := false
+	for _, ret := range allReturns(h) {
+		if idx >= len(ret.Results) {
+			return false
+		}
+		rv := ret.Results[idx]
+		if c, okc := constString(rv); okc && c == "" {
+			continue
+		}
+		var leaves []leafAt
+		expandPhis(rv, nil, map[*ssa.Phi]bool{}, &leaves)
+		for _, lf := range leaves {
+			if c, okc := constString(lf.v); okc && c == "" {
+				continue
+			}
+			if !nameOfNode(w, lf.v, h.Params[pi], depth+1) {
+				return false
+			}
+			some = true
+		}
+	}
+	return some
+}
+
+// opNamePredicate reads a predicate over a node as the set of operator names it accepts: every `return true`
+// must be reached through a positive comparison of the node's name with a constant (on every incoming edge), and a
+// returned boolean expression must be a disjunction of such comparisons.
 func opNamePredicate(w *World, fnName string) (map[string]bool, string) {
 	fn := w.Fn(fnName)
 	if fn == nil {
 		return nil, "function " + fnName + " not found"
 	}
+	n := ssa.Value(fn.Params[0])
 	names := map[string]bool{}
 	bad := ""
-	tc := &termCtx{leaf: func(v ssa.Value) string {
-		if ta, ok := v.(*ssa.TypeAssert); ok {
-			if _, okv := loadOfField(ta.X, "node", "value"); okv {
-				return "NAME"
+	nameCmp := func(c ssa.Value) (string, bool) {
+		bo, ok := c.(*ssa.BinOp)
+		if !ok || bo.Op != token.EQL {
+			return "", false
+		}
+		for _, side := range [][2]ssa.Value{{bo.X, bo.Y}, {bo.Y, bo.X}} {
+			if s, okc := constString(side[1]); okc && nameOfNode(w, side[0], n, 0) {
+				return s, true
 			}
+		}
+		return "", false
+	}
+	positives := func(facts []Fact) []string {
+		var out []string
+		for _, f := range facts {
+			if s, ok := nameCmp(f.Cond); ok && f.Truth {
+				out = append(out, s)
+			}
+		}
+		return out
+	}
+	tc := &termCtx{leaf: func(v ssa.Value) string {
+		if nameOfNode(w, v, n, 0) {
+			return "NAME"
 		}
 		return ""
 	}}
 	for _, ret := range allReturns(fn) {
 		v := ret.Results[0]
 		if b, ok := constBool(v); ok {
-			if b {
+			if !b {
+				continue
+			}
+			if ps := positives(factsAt(ret.Block())); len(ps) > 0 {
+				for _, s := range ps {
+					names[s] = true
+				}
+				continue
+			}
+			// a shared body: every incoming edge must carry a name comparison
+			blk := ret.Block()
+			if len(blk.Preds) == 0 {
 				bad = "returns constant true"
+				continue
+			}
+			for _, p := range blk.Preds {
+				for kk, sc := range p.Succs {
+					if sc != blk {
+						continue
+					}
+					ps := positives(factsAtEdge(p, kk))
+					if len(ps) == 0 {
+						bad = "returns true on a path without a comparison of the node's name"
+					}
+					for _, s := range ps {
+						names[s] = true
+					}
+				}
 			}
 			continue
 		}
@@ -370,19 +483,31 @@ func opNamePredicate(w *World, fnName string) (map[string]bool, string) {
 			parts = []string{t}
 		}
 		for _, p := range parts {
-			// ("x" == NAME) in canonical order
 			var s string
-			if n, err := fmt.Sscanf(p, "(%q == NAME)", &s); n == 1 && err == nil {
+			if c, err := fmt.Sscanf(p, "(%q == NAME)", &s); c == 1 && err == nil {
+				names[s] = true
+			} else if c, err := fmt.Sscanf(p, "(NAME == %q)", &s); c == 1 && err == nil {
 				names[s] = true
 			} else {
 				bad = "unrecognised disjunct " + p
 			}
 		}
-		// the value-returning path must be dominated by a kind test operator|fastOperator
-		kinds := kindGuardPresent(w, fn)
-		if !(kinds["operator"] && kinds["fastOperator"]) {
-			bad = "the name comparison is not preceded by the kind test (operator or fastOperator)"
+	}
+	// the name is looked at only for operator / fastOperator nodes (in the predicate or in the helper it reads the name through)
+	kinds := kindGuardPresent(w, fn)
+	EachInstr(fn, func(in ssa.Instruction) {
+		if c, ok := in.(*ssa.Call); ok {
+			if h := c.Call.StaticCallee(); h != nil && w.funcSet[h] && h.Name() != "getNodeType" {
+				for kk, vv := range kindGuardPresent(w, h) {
+					if vv {
+						kinds[kk] = true
+					}
+				}
+			}
 		}
+	})
+	if !(kinds["operator"] && kinds["fastOperator"]) {
+		bad = "the name comparison is not preceded by the kind test (operator or fastOperator)"
 	}
 	return names, bad
 }
@@ -481,7 +606,43 @@ func rulePairBool(w *World, r *Report) {
 		if len(rets) == 1 {
 			t = tc.term(rets[0].Results[0])
 		}
-		r.Check(t == "(isAndOpNode(n) || isOrOpNode(n))", rule, w.Pos(fn.Pos()), "isBoolOpNode", "returns "+t, "the disjunction of the two predicates on its own argument", "isBoolOpNode is not isAndOpNode(n) || isOrOpNode(n)")
+		good := t == "(isAndOpNode(n) || isOrOpNode(n))"
+		if !good {
+			// the same written with early returns: true under one predicate, else the other predicate's answer
+			used := map[string]bool{}
+			good = true
+			for _, ret := range rets {
+				v := ret.Results[0]
+				if b, okb := constBool(v); okb {
+					if !b {
+						continue
+					}
+					found := false
+					for _, f := range factsAt(ret.Block()) {
+						if c, callee := staticCallee(f.Cond); c != nil && callee != nil && f.Truth && len(c.Call.Args) == 1 && c.Call.Args[0] == ssa.Value(fn.Params[0]) {
+							used[callee.Name()] = true
+							found = true
+						}
+					}
+					if !found {
+						good = false
+					}
+					continue
+				}
+				tt := tc.term(v)
+				switch tt {
+				case "isAndOpNode(n)", "isOrOpNode(n)":
+					used[strings.TrimSuffix(tt, "(n)")] = true
+				case "(isAndOpNode(n) || isOrOpNode(n))":
+					used["isAndOpNode"], used["isOrOpNode"] = true, true
+				default:
+					good = false
+				}
+				t += " / " + tt
+			}
+			good = good && used["isAndOpNode"] && used["isOrOpNode"] && len(used) == 2
+		}
+		r.Check(good, rule, w.Pos(fn.Pos()), "isBoolOpNode", "returns "+t, "the disjunction of the two predicates on its own argument", "isBoolOpNode is not isAndOpNode(n) || isOrOpNode(n)")
 	}
 }
 
